@@ -336,6 +336,9 @@ func gen(c *ex.Ctx) {
 					q = append(q, ex.LeanStr("set:"+l+"="+c.Src(x.Rhs[0])))
 				}
 			case *ast.DeferStmt:
+				if id, ok := x.Call.Fun.(*ast.Ident); ok && strings.HasPrefix(id.Name, "verif") {
+					return false // verification yield point
+				}
 				q = append(q, ex.LeanStr("defer:"+strings.Join(strings.Fields(c.Src(x.Call)), " ")))
 				return false
 			case *ast.CallExpr:
